@@ -326,15 +326,17 @@ func RunConcurrent(profile string, seed int64, dur time.Duration, workers int, o
 	edges := locking.VerifLockEdges()
 	res.LockEdges = len(edges)
 	type E struct {
-		FromClass string `json:"fromClass"`
-		ToClass   string `json:"toClass"`
-		From      string `json:"from"`
-		To        string `json:"to"`
-		Count     int64  `json:"count"`
+		FromClass  string  `json:"fromClass"`
+		ToClass    string  `json:"toClass"`
+		From       string  `json:"from"`
+		To         string  `json:"to"`
+		Count      int64   `json:"count"`
+		Goroutines []int64 `json:"goroutines"`
+		Stack      string  `json:"stack"`
 	}
 	var es []E
 	for _, e := range edges {
-		es = append(es, E{e.FromClass, e.ToClass, fmt.Sprintf("L%x", e.From), fmt.Sprintf("L%x", e.To), e.Count})
+		es = append(es, E{e.FromClass, e.ToClass, fmt.Sprintf("L%x", e.From), fmt.Sprintf("L%x", e.To), e.Count, append([]int64{}, e.Goroutines...), e.Stack})
 	}
 	sort.Slice(es, func(i, j int) bool { return es[i].From+es[i].To < es[j].From+es[j].To })
 	b, _ := json.Marshal(es)
